@@ -24,9 +24,10 @@ def _signed(x, w):
 
 
 class Interp:
-    def __init__(self, mod, f, observe=None, budget=200000, params=None, load_hook=None):
+    def __init__(self, mod, f, observe=None, budget=200000, params=None, load_hook=None, value_hook=None):
         self.mod, self.f, self.observe, self.budget = mod, f, observe, budget
         self.load_hook = load_hook        # load_hook(insn) -> int | None: value of a load that the caller fixes (an enumerated parameter field)
+        self.value_hook = value_hook      # value_hook(insn) -> int | None: a partition value the caller enumerates exhaustively for this instruction
         self.pd = f.postdominators()
         self.steps = 0
         self.params = params or {}
@@ -142,6 +143,11 @@ class Interp:
             self.observe(i, env, self)
         if not i.dst:
             return
+        if self.value_hook is not None:
+            v = self.value_hook(i)
+            if v is not None:
+                env[i.dst] = v
+                return
         op = i.op
         w = _w(i.ty)
         M = (1 << w) - 1
